@@ -78,6 +78,7 @@ inductive Api where
   | unmark (v : Nat)
   | mark (v : Nat) (mk : String)
   | withMarks (v : Nat) (g : Nat)
+  | withSameMarks (v w : Nat)              -- WithSameMarks(src): reads the marker of `src`
   -- operation methods (read-only)
   | opAdd (v w : Nat)
   | opNegate (v : Nat)
@@ -103,6 +104,7 @@ inductive Api where
   | newPathSet
   | psAdd (g p : Nat) (h : Int)            -- PathSet.Add: RETAINS the path (documented)
   | psHas (g p : Nat) (h : Int)
+  | psRemove (g p : Nat) (h : Int)         -- PathSet.Remove: the bucket without the member is a fresh array
   | psList (g : Nat) (perm : List Nat)     -- the member paths themselves (Paths are immutable by convention)
   | walkBegin (v : Nat)                    -- Walk: first callback invocation (root, nil path)
   | walkNext (w : Nat)                     -- …next callback invocation: the path shares the walk's buffer
@@ -482,6 +484,15 @@ def stepApi (st : St) : Api → Option St
     else
       let (m, a) := alloc st.mem .lib (.markset all)
       pure ((st.withMem m).pushVal t (.marked a (unwrap p)))
+  -- WithSameMarks(src): fresh mark set = own marks ∪ marks of `src` (its marker is only read)
+  | .withSameMarks v w => do
+    let (t, p) ← st.val v
+    let (_, q) ← st.val w
+    let all := msUnion (valMarks st.mem p) (valMarks st.mem q)
+    if all.isEmpty then pure (st.pushVal t p)
+    else
+      let (m, a) := alloc st.mem .lib (.markset all)
+      pure ((st.withMem m).pushVal t (.marked a (unwrap p)))
   -- operation methods: read operands, allocate the result
   | .opAdd v w => do
     let (_, .num a) ← st.val v | none
@@ -605,6 +616,12 @@ def stepApi (st : St) : Api → Option St
     let pw ← st.go p
     let b ← setHas equivPath st.mem a pw h
     pure (st.pushOut (boolTok b))
+  -- PathSet.Remove(path): s.set.Remove(path) — the path is only read (hashed, compared)
+  | .psRemove g p h => do
+    let .set a ← st.go g | none
+    let pw ← st.go p
+    let m ← setRemove equivPath st.mem a pw h
+    pure (st.withMem m)
   -- PathSet.List(): a fresh []Path whose elements are the member slices themselves
   | .psList g perm => do
     let .set a ← st.go g | none
@@ -776,6 +793,9 @@ def respectful (st : St) : HeapOp → Bool
   | .api (.vsAdd g _ _) | .api (.vsRemove g _ _) => match st.go g with
     | some (.pair _ (.set a)) => setOwned st.mem a
     | _ => true
+  | .api (.psRemove g _ _) => match st.go g with
+    | some (.set a) => setOwned st.mem a
+    | _ => true
   | .api (.psAdd g p _) =>
     (match st.go g with
       | some (.set a) => setOwned st.mem a
@@ -829,6 +849,9 @@ def wset (st : St) (op : HeapOp) (x : Addr) : Bool :=
   | .api (.vsAdd g _ _) | .api (.vsRemove g _ _) => match st.go g with
     | some (.pair _ (.set a)) => x == a || ownerOf st.mem x == some (.bucket a)
     | _ => false
+  | .api (.psRemove g _ _) => match st.go g with
+    | some (.set a) => x == a || ownerOf st.mem x == some (.bucket a)
+    | _ => false
   | .api (.psAdd g p _) =>
     (match st.go g with
       | some (.set a) => x == a || ownerOf st.mem x == some (.bucket a)
@@ -844,7 +867,7 @@ def receiver (st : St) : HeapOp → Option Addr
   | .api (.vsAdd g _ _) | .api (.vsRemove g _ _) => match st.go g with
     | some (.pair _ (.set a)) => some a
     | _ => none
-  | .api (.psAdd g _ _) => match st.go g with
+  | .api (.psAdd g _ _) | .api (.psRemove g _ _) => match st.go g with
     | some (.set a) => some a
     | _ => none
   | _ => none
